@@ -25,6 +25,8 @@ if metas:
         d = json.load(open(m))
         sid = os.path.basename(os.path.dirname(m))
         r = res.get(sid, ["(not run yet)", ""])
+        if d.get("stale"):
+            r = ["stale: " + d["stale"], ""]
         cut = lambda x, n: (x[:n] + ("…" if len(x) > n else "")).replace("|", "/").replace(chr(10), " ")
         seeded.append(f"| {sid} | {d.get('property','')} | {cut(d.get('summary',''), 300)} — needs: {cut(d.get('needs',''), 220)} | {r[0]} {r[1] if len(r)>1 else ''} |")
 else:
